@@ -127,16 +127,32 @@ type pagerSpec struct {
 	Labels   int
 	WithNums bool
 	Origin   int
+	Base     int  // 0 /story/alpha..., 1 /articles/story... (a URL with a word the prev/next scorer dislikes)
+	Frag     bool // the page URL carries a #fragment
 }
 
-var nextLabels = []string{"Next", "next", "Next &raquo;", "Next page", "NEXT"}
-var prevLabels = []string{"Prev", "Previous", "&laquo; Prev", "previous page", "PREV"}
+// rebase moves a family URL (absolute, root-relative or relative) to the other base path.
+func (sp pagerSpec) rebase(s string) string {
+	if sp.Base == 0 {
+		return s
+	}
+	return strings.ReplaceAll(strings.ReplaceAll(s, "/story/", "/articles/"), "alpha", "story")
+}
+
+var nextLabels = []string{"Next", "next", "Next &raquo;", "Next page", "NEXT", "Next &raquo;"}
+var prevLabels = []string{"Prev", "Previous", "&laquo; Prev", "previous page", "PREV", "&laquo; Previous"}
 
 func conventionalPager(sp pagerSpec, r *RNG) *Pager {
 	pg := &Pager{N: sp.N, K: sp.K, Family: sp.Fam}
 	origin := pagerOrigins[sp.Origin%len(pagerOrigins)]
-	pg.PageURL = origin + famPath(sp.Fam, sp.K, sp.Slash)
+	pg.PageURL = sp.rebase(origin + famPath(sp.Fam, sp.K, sp.Slash))
+	if sp.Frag {
+		pg.PageURL += "#comments"
+	}
 	page := mustURL(pg.PageURL)
+	famHref := func(origin, fam string, i int, slash bool, form string) string {
+		return sp.rebase(famHref(origin, fam, i, slash, form))
+	}
 	resolve := func(i int) string {
 		ref, _ := nurl.Parse(famHref(origin, sp.Fam, i, sp.Slash, sp.Form))
 		return canonURL(page.ResolveReference(ref))
@@ -179,6 +195,10 @@ func conventionalPager(sp pagerSpec, r *RNG) *Pager {
 		body = `<nav>` + body + `</nav>`
 	case 2:
 		body = `<p>` + body + `</p>`
+	case 4:
+		body = `<div class="article-footer"><div class="pg">` + body + `</div></div>`
+	case 5:
+		body = `<div id="sidebar"><div>` + body + `</div></div>`
 	default:
 		body = `<div class="pagination" id="pager"><div>` + body + `</div></div>`
 	}
